@@ -1,7 +1,7 @@
 (* C05 — deciding obligations. Statements only, closed by the lemmas proved in Circ/*Proofs.v. *)
 From Coq Require Import ZArith List Bool Permutation.
 From VF Require Import Circ.Moments Circ.MomentCalls Circ.Placement Circ.Insert Circ.BatchEdit Circ.History
-  Circ.MomentsProofs Circ.InsertProofs Circ.PlacementProofs Circ.CacheProofs Circ.BatchProofs Circ.OrderProofs Circ.TotalProofs Circ.EquivProofs Circ.HistoryProofs Circ.ReturnIndexProofs Circ.RangeOrderProofs.
+  Circ.MomentsProofs Circ.InsertProofs Circ.PlacementProofs Circ.CacheProofs Circ.BatchProofs Circ.OrderProofs Circ.TotalProofs Circ.EquivProofs Circ.HistoryProofs Circ.ReturnIndexProofs Circ.RangeOrderProofs Circ.Store Circ.StoreProofs.
 Import ListNotations.
 Open Scope Z_scope.
 
@@ -341,6 +341,30 @@ Theorem C05_grouping_compatible : forall its, Forall batch_ok (group_into_moment
 Proof. exact group_batches_ok. Qed.
 Print Assumptions C05_grouping_compatible.
 
+(* several circuit objects (Circ/Store.v): expressions such as c.copy(), c[a:b], c.untagged, c.with_tags(t), c + tree make
+   a new object; `main` is the circuit under edit, `aside` the objects put aside (sources of construction expressions the
+   variable was rebound by, and results of construction expressions taken while the variable kept the source).
+   The circuit under edit is what its own calls build: objects derived from it and objects it was derived from have no
+   influence on it *)
+Theorem C05_edited_circuit_is_its_own_history : forall h st, main (srun st h) = run (main st) (main_calls h).
+Proof. exact main_own_history. Qed.
+Print Assumptions C05_edited_circuit_is_its_own_history.
+
+(* an object put aside is never changed by later calls on the circuit under edit (nor by later derivations) *)
+Theorem C05_object_put_aside_is_kept : forall h st i o,
+  nth_error (aside st) i = Some o -> nth_error (aside (srun st h)) i = Some o.
+Proof. exact aside_object_kept. Qed.
+Print Assumptions C05_object_put_aside_is_kept.
+
+(* every object put aside during a history is the circuit the variable's own calls had built up to some point of the
+   history, or the result of one construction expression on that circuit *)
+Theorem C05_object_put_aside_is_determined : forall h st o, In o (aside (srun st h)) ->
+  In o (aside st) \/
+  exists h1 h2, h = h1 ++ h2 /\
+    (o = run (main st) (main_calls h1) \/ exists x, o = fst (step (run (main st) (main_calls h1)) x)).
+Proof. exact aside_determined. Qed.
+Print Assumptions C05_object_put_aside_is_determined.
+
 (* non-vacuity of the hypotheses *)
 Example C05_hypotheses_example :
   let h := [CAppend [IOp (mkop 1 [0; 1] [] [] [] true); IMom [mkop 2 [0] [3] [] [] false]] EARLIEST;
@@ -372,3 +396,13 @@ Example C05_insert_into_range_order_example :
   let its := [IOp (mkop 2 [0; 1] [] [] [] true); IOp (mkop 3 [1] [] [] [] true)] in
   exists c', insert_into_range c its 0 3 = (c', inl 3) /\ uid_moms (moms c') = [[1]; [2]; [3]].
 Proof. exact insert_into_range_order_example. Qed.
+
+(* the store statements are not vacuous: c = Circuit(); c.append(X(0)); d = c.copy(); c.append(Y(0)); c = c[1:]; c.append(X(0))
+   leaves d = [X], the circuit that was sliced = [X] [Y], and c = [Y] [X] *)
+Example C05_store_example :
+  let x := mkop 1 [0] [] [] [] true in
+  let y := mkop 2 [0] [] [] [] true in
+  let st := srun sinit [SMain (CAppend [IOp x] EARLIEST); SSide CCopy; SMain (CAppend [IOp y] EARLIEST);
+                        SMain (CSlice (Some 1) None); SMain (CAppend [IOp x] EARLIEST)] in
+  map (fun c => uid_moms (moms c)) (aside st) = [[[1]]; [[1]; [2]]] /\ uid_moms (moms (main st)) = [[2]; [1]].
+Proof. vm_compute. split; reflexivity. Qed.
